@@ -4,5 +4,7 @@ CONSTANTS
   Slots = {31, 100, 1000000007}
   GivenEpochs = {3, 31250000}
   MaxBatch = 4
+  NReq = 1
+  ForkEpochs = {0}
 INVARIANTS Emit
 CHECK_DEADLOCK FALSE
